@@ -248,22 +248,23 @@ class TensorWeights(Contract):
             def sym_getattr(self, ctx, name):
                 return lambda ctx, x, copy=True: x
         S.globals = {'numpy': NP(), 'types': Ty(), '_': None}
-        # L-DIVMOD instance for the row-major index
-        i, j = z3.Ints('i!dm j!dm')
-        cx.assume(z3.ForAll([i, j], z3.Implies(z3.And(0 <= i, 0 <= j, j < n2), z3.And((i * n2 + j) / n2 == i, (i * n2 + j) % n2 == j))),
-                  axiom='L-DIVMOD: divmod(i*n + j, n) = (i, j) for 0 <= j < n (lemma library; also z3-provable for fixed n)')
+        # Skolem point (i, j) and coordinate d; the L-DIVMOD instance for its row-major index is PROVED (clause
+        # `arith:divmod-of-row-major-index`) and offered as a premise to the main clauses (no axiom assumed)
+        S.i, S.j, S.d = cx.int('i'), cx.int('j'), cx.int('d')
         return S
 
     def ensures(self, cx, S, r):
         if not isinstance(r, NdArr):
             raise Unsupported('returned %r' % (r,))
-        i, j, d = z3.Ints('i j d')
+        i, j, d, n2 = S.i, S.j, S.d, S.n2
         rng = z3.And(0 <= i, i < S.n1, 0 <= j, j < S.n2)
+        inst = z3.Implies(z3.And(0 <= j, j < n2), z3.And((i * n2 + j) / n2 == i, (i * n2 + j) % n2 == j))
+        lem = ('arith:divmod-of-row-major-index', inst)
         if self.what == 'weights':
-            return [('length', z3.simplify(r.shape[0]) == S.n1 * S.n2 if len(r.shape) == 1 else z3.BoolVal(False)),
-                    ('weight-of-point-(i,j)-at-i*n2+j', z3.ForAll([i, j], z3.Implies(rng, r.sel(i * S.n2 + j) == S.W1(i) * S.W2(j))))]
-        return [('coords-of-point-(i,j)-at-i*n2+j', z3.ForAll([i, j, d], z3.Implies(z3.And(rng, 0 <= d, d < S.d1 + S.d2),
-                                                                                  r.sel(i * S.n2 + j, d) == z3.If(d < S.d1, S.C1(i, d), S.C2(j, d - S.d1)))))]
+            return [lem, ('length', z3.simplify(r.shape[0]) == S.n1 * S.n2 if len(r.shape) == 1 else z3.BoolVal(False)),
+                    ('weight-of-point-(i,j)-at-i*n2+j', z3.Implies(z3.And(inst, rng), r.sel(i * S.n2 + j) == S.W1(i) * S.W2(j)))]
+        return [lem, ('coords-of-point-(i,j)-at-i*n2+j', z3.Implies(z3.And(inst, rng, 0 <= d, d < S.d1 + S.d2),
+                                                                    r.sel(i * S.n2 + j, d) == z3.If(d < S.d1, S.C1(i, d), S.C2(j, d - S.d1))))]
 
     def replay(self, ob):
         import os
